@@ -15,7 +15,7 @@ open Sdc.RequestFlow
 
 /-- if building the fault reply does not raise, `do_post` returns (status, reason, body) whatever the reader, the
     validator, the dispatcher, the handler and the serialiser of the regular answer do -/
-theorem doPost_total {σ : Type} (e : PostEnv σ) (h : e.FaultPathOk) (s : σ) : ∃ r, (doPost e s).1 = .ok r := by
+theorem doPost_total_partial {σ : Type} (e : PostEnv σ) (h : e.FaultPathOk) (s : σ) : ∃ r, (doPost e s).1 = .ok r := by
   obtain ⟨⟨u1, h1⟩, ⟨b1, h2⟩, ⟨u2, h3⟩, ⟨u3, h4⟩, ⟨b2, h5⟩⟩ := h
   unfold doPost
   cases hr : e.read1 with
@@ -224,6 +224,60 @@ theorem soap_answer_is_components {σ : Type} (e : HandlerEnv σ) (s : σ) (r : 
 theorem doGet_total (e : GetEnv) (u : Unit) (h : e.parse = .ok u) : ∃ o, doGet e = .ok o := by
   unfold doGet; rw [h]; cases e.handle <;> exact ⟨_, rfl⟩
 
+/-! ### deferred dispatch of the consumer endpoint: the worker survives every handler exception -/
+
+/-- the worker thread never leaves its loop, whatever the handlers raise and in whatever order requests arrive -/
+theorem worker_survives (cap : Nat) (s : DState) (ops : List DOp) (h : s.alive = true) : (drun cap s ops).alive = true := by
+  induction ops generalizing s with
+  | nil => exact h
+  | cons op ops ih =>
+    apply ih
+    cases op with
+    | post it => simp only [dstep]; split <;> exact h
+    | work =>
+      simp only [dstep, h, if_true]
+      cases s.queue <;> simp [h]
+
+/-- every queued request is handed to its handler, in order, whatever earlier handlers raised:
+    after as many worker passes as there are queued items the queue is empty and all of them were handled -/
+theorem every_item_handled (cap : Nat) (s : DState) (h : s.alive = true) :
+    drun cap s (List.replicate s.queue.length .work) = ⟨[], s.handled ++ s.queue.map (·.id), true⟩ := by
+  obtain ⟨q, hd, al⟩ := s
+  simp only at h
+  subst h
+  induction q generalizing hd with
+  | nil => simp [drun]
+  | cons it r ih =>
+    simp only [List.length_cons, List.replicate_succ, drun, dstep, if_true]
+    rw [ih]
+    simp
+
+/-- `on_post` can only block on a full queue, and a living worker frees a slot with its next pass: no deadlock -/
+theorem full_queue_drains (cap : Nat) (hc : 0 < cap) (s : DState) (it : Item) (h : s.alive = true)
+    (hinv : s.queue.length ≤ cap) (hb : (dstep cap s (.post it)).2 = true) : (dstep cap (dstep cap s .work).1 (.post it)).2 = false := by
+  simp only [dstep] at hb ⊢
+  split at hb
+  · cases hb
+  · rename_i hfull
+    simp only [h, if_true]
+    cases hq : s.queue with
+    | nil => rw [hq] at hfull; simp at hfull; omega
+    | cons x r =>
+      simp only
+      have : r.length < cap := by rw [hq] at hinv; simp at hinv; omega
+      simp [this]
+
+/-- a request whose handler raises is answered like any other (the answer was given before the handler ran) and does not
+    change what happens to the requests behind it -/
+theorem failing_handler_is_local (cap : Nat) (s : DState) (a b : Item) (x : Exc) (h : s.alive = true) (hq : s.queue = []) (hc : 2 ≤ cap) :
+    (drun cap s [.post ⟨a.id, .error x⟩, .post b, .work, .work]).handled = s.handled ++ [a.id, b.id] := by
+  obtain ⟨q, hd, al⟩ := s
+  simp only at h hq
+  subst h hq
+  have h1 : (0 : Nat) < cap := by omega
+  have h2 : (1 : Nat) < cap := by omega
+  simp [drun, dstep, h1, h2]
+
 /-! ### the readers terminate (C17 model) -/
 
 /-- the chunked reader returns a body or DechunkError for every byte string; the loop bound is never hit -/
@@ -268,5 +322,8 @@ example : (doPost (σ := Nat) ⟨.ok (), .ok (), .ok 3, fun n => (.error (.other
 example : Http.dechunk 16 [53, 13, 10, 97, 98] = .error .dechunk ∧
     (doPOST (σ := Nat) ⟨.error (.other 1), true, .ok (), fun n => (.ok ⟨200, .ok, .response 0⟩, n + 1), .ok .error⟩ 5)
       = (.ok (.plain 400 .exception), 5) := by decide
+
+/-- the history of seeded defect class "worker dies": handler of request 1 raises, request 2 is still handled -/
+example : (drun 1000 ⟨[], [], true⟩ [.post ⟨1, .error (.other 7)⟩, .post ⟨2, .ok ()⟩, .work, .work]).handled = [1, 2] := by decide
 
 end Sdc.C13
